@@ -175,6 +175,24 @@ pub fn take_edge_counts() -> (u64, u64) {
     )
 }
 
+/// The library called `sched_yield` or slept (interposed in clock.rs) inside a guarded call
+/// on a simulated thread: a scheduling point.
+pub fn on_yield() -> bool {
+    if !in_call_fast() {
+        return false;
+    }
+    if enter_cb() {
+        return false;
+    }
+    let sim = SIM.try_with(|s| s.borrow().clone()).ok().flatten();
+    let switched = match sim {
+        Some(sim) => sim.yielded(),
+        None => false,
+    };
+    leave_cb();
+    switched
+}
+
 /// Path signature of the most recent guarded call on this thread.
 pub fn last_sig() -> u64 {
     CALLSIG.with(|c| c.get())
